@@ -22,6 +22,14 @@ class Unsupported(Exception):
     pass
 
 
+class OutOfRange(Unsupported):
+    """a subscript outside the sequence: the real code raises IndexError here"""
+
+
+class RaiseReached(Unsupported):
+    """a raise statement is executed for these arguments"""
+
+
 class Randomised(Exception):
     pass
 
@@ -263,7 +271,7 @@ class VecEval:
         elif isinstance(s, ast.Assert):
             return
         elif isinstance(s, ast.Raise):
-            raise Unsupported("raise reached")
+            raise RaiseReached("raise reached")
         else:
             raise Unsupported(f"statement {type(s).__name__}")
 
@@ -281,7 +289,7 @@ class VecEval:
             if isinstance(base, tuple) and isinstance(i, (int, Fraction)) and not isinstance(i, bool) and Fraction(i).denominator == 1:
                 k = int(i)
                 if not -len(base) <= k < len(base):
-                    raise Unsupported("index out of range")
+                    raise OutOfRange("index out of range")
                 lst = list(base)
                 lst[k] = v
                 self.env[t.value.id] = tuple(lst)
@@ -395,7 +403,7 @@ class VecEval:
             if isinstance(base, tuple) and isinstance(i, (int, Fraction)) and not isinstance(i, bool) and Fraction(i).denominator == 1:
                 k = int(i)
                 if not -len(base) <= k < len(base):
-                    raise Unsupported("index out of range")
+                    raise OutOfRange("index out of range")
                 return base[k]
             if isinstance(base, tuple) and isinstance(i, tuple) and all(isinstance(x, bool) for x in i) and len(i) == len(base):
                 return tuple(x for m, x in zip(i, base) if m)
@@ -603,6 +611,23 @@ class VecEval:
             bb = b if isinstance(b, tuple) else tuple(b for _ in a0)
             cc = c if isinstance(c, tuple) else tuple(c for _ in a0)
             return tuple(x if m else y for m, x, y in zip(a0, bb, cc))
+        if last in ("bisect_right", "bisect", "bisect_left") and len(args) == 2 and is_vec(a0) and isinstance(args[1], Fraction):
+            import bisect as _bs2
+            return Fraction((_bs2.bisect_left if last == "bisect_left" else _bs2.bisect_right)(list(a0), args[1]))
+        if last == "searchsorted" and len(args) >= 2 and is_vec(a0) and "sorter" not in kw:
+            side = kw["side"].value if "side" in kw and isinstance(kw["side"], ast.Constant) else ("left" if "side" not in kw and len(e.args) < 3 else None)
+            if side is None and len(e.args) > 2 and isinstance(e.args[2], ast.Constant):
+                side = e.args[2].value
+            if side not in ("left", "right"):
+                raise Unsupported("searchsorted side")
+            import bisect as _bs
+            f = _bs.bisect_right if side == "right" else _bs.bisect_left
+            v_ = args[1]
+            if isinstance(v_, Fraction):
+                return Fraction(f(list(a0), v_))
+            if is_vec(v_):
+                return tuple(Fraction(f(list(a0), x)) for x in v_)
+            raise Unsupported("searchsorted operand")
         if last == "argsort" and is_vec(a0):
             return tuple(Fraction(i) for i in sorted(range(len(a0)), key=lambda i: (a0[i], i)))
         if last == "range":
